@@ -585,7 +585,14 @@ func init() {
 		Technique: "explicit-state search over the real Catalog: every reachable ordered content over 3 insertable keys x every operation (all key sequences up to length 2/3 for the bulk operations, every random answer sequence for ShuffleValues), for seven key types incl. pointer keys; ordered-slice model; the private key index and the private order are compared on every state",
 		Rule:      "state = dump of private fields (index map and association list); transition = (state, op)",
 		Assume:    []string{"4-key universes (one key never inserted), 2 values repeated across keys", "MakeFromMap order is unconstrained (multi-entry maps are checked as leaves only)"},
-		Budget:    func(string) time.Duration { return 5 * time.Minute },
+		Budget: func(tier string) time.Duration {
+			// the quick search finishes in seconds; the budget only bounds a search whose state space a change of
+			// the library has made unbounded (a private modification counter): reported as not exhaustive
+			if tier == "thorough" {
+				return 15 * time.Minute
+			}
+			return 90 * time.Second
+		},
 		Units:     units,
 	})
 }
